@@ -1,6 +1,6 @@
 """U2 -- lookup and ordering: utils::greatest_lower_bound, RawToken/Token/SourceMap definitions,
 Token getters, SourceMap::{new, get_token, get_token_count, tokens, lookup_token}, TokenIter::next"""
-from .common import emit_struct, emit_method, inspect_to_if
+from .common import emit_struct, emit_method, inspect_to_if, emit_free_fn
 
 NAME = 'u2_lookup'
 PROPS = ['C04', 'C07', 'C05', 'C02', 'C13', 'C08', 'C14']
@@ -26,9 +26,8 @@ def build(u):
     u.spec('tokens.rs')
     u.spec('token_iter.rs')
 
-    f = u.get_fn('src/utils.rs', 'greatest_lower_bound')
-    u.count('R-closure', f.annotate_closure('res', "res: &'a T", "(o: (usize, &'a T)) ensures o == $BODY", expect=2))
-    u.emit_fn(f, 'utils::greatest_lower_bound')
+    emit_free_fn(u, 'src/utils.rs', 'greatest_lower_bound', 'utils::greatest_lower_bound',
+                 prep=lambda f: u.count('R-closure', f.annotate_closure('res', "res: &'a T", "(o: (usize, &'a T)) ensures o == $BODY", expect=2)))
 
     for g in ['get_dst_line', 'get_dst_col', 'get_dst', 'get_src_line', 'get_src_col', 'get_src', 'get_src_id',
               'has_source', 'get_name_id', 'get_raw_token', 'is_range']:
